@@ -178,6 +178,8 @@ def gen_case(rng, tier, n=None, blocks=None, merge=None):
             fl = A(gmm["floor"])
             fl[b] = fl[a]
             gmm["floor"] = L(fl)
+        if not (ww > 0).any():
+            ww[a] = 1.0  # (a mixture has at least one component with a positive weight)
         gmm.update(means=L(mm), variances=L(vv), weights=L(ww))
         special.append("twin_components")
     if rng.random() < 0.06:
